@@ -20,7 +20,7 @@ from sim.world import Run
 
 ID = "C34"
 LEVEL = "exploration"
-RUNS = {"quick": 30000, "thorough": 400000}
+RUNS = {"quick": 30000, "thorough": 2400000}
 BUDGET = {"quick": 100.0, "thorough": 3300.0}
 RULE = ("one run = seeded callback registrations (address lists, level-3 filters, internal globs, outgoing flag, raising) "
         "and a telegram stream, with (un)registrations between and during dispatch; non-trivial = >=2 registrations and "
